@@ -1008,3 +1008,40 @@ mut('c11-searchcache-falls-into-any-interface', ['C10', 'C11', 'C17'], OB,
     [("            if interfaceName:\n                if interfaceName in cache:\n                    d = getattr(cache[interfaceName], cacheAttr)\n                    if key in d:\n                        return d[key]\n",
       "            if interfaceName and interfaceName in cache:\n                d = getattr(cache[interfaceName], cacheAttr)\n                if key in d:\n                    return d[key]\n")], ['C10.D6', 'C11.D4', 'C17.D4'],
     note='round-4 seed: a named lookup falls into the any-interface search')
+
+# round-5 seeds as regression mutants ----------------------------------------------
+mut('c02-string-size-counts-characters', ['C02', 'C01'], M,
+    [("    s = codecs.decode(data[offset + 4: offset + 4 + slen], 'utf-8')\n    return 4 + slen + 1, s", "    s = codecs.decode(data[offset + 4: offset + 4 + slen], 'utf-8')\n    return 4 + len(s) + 1, s")], ['C02.D4', 'C01.D3'],
+    note='round-5 seed: non-ASCII strings are followed by misread data')
+mut('c03-hcode-tuple-indexerror', ['C03'], MS,
+    [("_hcode = {\n    1: 'path',\n    2: 'interface',\n    3: 'member',\n    4: 'error_name',\n    5: 'reply_serial',\n    6: 'destination',\n    7: 'sender',\n    8: 'signature',\n    9: 'unix_fds',\n}",
+      "_hcode = (None, 'path', 'interface', 'member', 'error_name', 'reply_serial',\n          'destination', 'sender', 'signature', 'unix_fds')")], ['C03.D3'],
+    note='round-5 seed: an unknown field code now raises IndexError past `except KeyError`')
+mut('ok-c03-hcode-tuple-lookuperror', ['C03'], MS,
+    [("_hcode = {\n    1: 'path',\n    2: 'interface',\n    3: 'member',\n    4: 'error_name',\n    5: 'reply_serial',\n    6: 'destination',\n    7: 'sender',\n    8: 'signature',\n    9: 'unix_fds',\n}",
+      "_hcode = (None, 'path', 'interface', 'member', 'error_name', 'reply_serial',\n          'destination', 'sender', 'signature', 'unix_fds')"),
+     ("        except KeyError:\n            pass", "        except (LookupError, TypeError):\n            pass")], kind='benign',
+    note='the same table as a tuple WITH a handler that catches its exceptions: code 0 -> setattr(m, None) TypeError is caught too')
+mut('c04-body-decoded-with-class-endian', ['C04', 'C03'], MS,
+    [("            m.rawBody,\n            lendian=lendian,", "            m.rawBody,\n            lendian=m.endian == ord('l'),")], ['C04.D1', 'C03.D4'],
+    note='round-5 seed')
+mut('c05-signed-be-string-length', ['C05'], M,
+    [("    slen = struct.unpack_from(lendian and '<I' or '>I', data, offset)[0]\n    s = codecs.decode(data[offset + 4: offset + 4 + slen], 'utf-8')", "    slen = struct.unpack_from(lendian and '<I' or '>i', data, offset)[0]\n    s = codecs.decode(data[offset + 4: offset + 4 + slen], 'utf-8')")], ['C05.D1'],
+    note='round-5 seed: signed only in big-endian')
+mut('c08-serial-wraps-at-28-bits', ['C08', 'C03'], MS,
+    [("            DBusMessage._nextSerial += 1\n", "            DBusMessage._nextSerial = (self.serial + 1) & 0xFFFFFFF or 1\n")], ['C08.D4', 'C03.D5'],
+    note='round-5 seed: serials repeat after 2**28 messages')
+mut('c13-busnames-class-level', ['C13', 'C14'], BU,
+    [("        self.busNames = {}  # name => allow_replacement\n", ""),
+     ("    _called_hello = False\n    bus = None\n", "    _called_hello = False\n    bus = None\n    busNames = {}\n")], ['C13.D4', 'C14.D2'],
+    note='round-5 seed: one allow-replacement table shared by all connections')
+mut('c16-shared-default-exports', ['C16', 'C09'], OB,
+    [("    def __init__(self, connection):\n        \"\"\"\n        @type connection: L{client.DBusClientConnection} or L{bus.Bus}", "    def __init__(self, connection, exports={}):\n        \"\"\"\n        @type connection: L{client.DBusClientConnection} or L{bus.Bus}"),
+     ("        self.exports = {}  # map object paths => obj", "        self.exports = exports  # map object paths => obj")], ['C16.D1', 'C09.D6'],
+    note='round-5 seed: one export table for every handler built without the argument')
+mut('c19-signature-255-rejected', ['C19', 'C02'], M,
+    [("def marshal_signature(ct, var, start_byte, lendian, oobFDs):\n", "def marshal_signature(ct, var, start_byte, lendian, oobFDs):\n    if len(var) >= 255:\n        raise MarshallingError('Signature exceeds maximum length of 255')\n")], ['C19.D6', 'C02.D4'],
+    note='round-5 seed: off by one, the longest valid signature is refused')
+mut('ok-c19-signature-over-255-rejected', ['C19', 'C02'], M,
+    [("def marshal_signature(ct, var, start_byte, lendian, oobFDs):\n", "def marshal_signature(ct, var, start_byte, lendian, oobFDs):\n    if len(var) > 255:\n        raise MarshallingError('Signature exceeds maximum length of 255')\n")], kind='benign',
+    note='an explicit guard with the right bound (struct would raise anyway)')
